@@ -15,8 +15,10 @@ import (
 	"regexp"
 	"sort"
 	"strings"
+	"syscall"
 	"time"
 
+	"github.com/nsqio/nsq/internal/verif/vos"
 	"github.com/nsqio/nsq/internal/verif/vrt"
 	"github.com/nsqio/nsq/internal/verif/vx"
 )
@@ -39,6 +41,10 @@ type HistCfg struct {
 	// message is a maximum-size message on every path it takes (memory, disk overflow,
 	// requeue, flush at shutdown): size limits that disagree between sites show up as losses.
 	TightMax bool `json:"tightmax,omitempty"`
+	// IOFault: adds the event "hpubfail" - an HTTP publish during which the next write to
+	// the topic's disk queue fails (short write + ENOSPC): the publish is refused (or, if no
+	// disk write was needed, acknowledged as usual) and leaves no trace in the counters
+	IOFault bool `json:"iofault,omitempty"`
 }
 
 func (c HistCfg) String() string {
@@ -48,6 +54,9 @@ func (c HistCfg) String() string {
 	}
 	if c.TightMax {
 		s += "/tightmax"
+	}
+	if c.IOFault {
+		s += "/iofault"
 	}
 	return s
 }
@@ -185,6 +194,9 @@ func (h *hworld) Menu() []string {
 	var m []string
 	if h.pubN-h.preN < h.cfg.MaxMsgs {
 		m = append(m, "pub", "hpub", "dpub")
+		if h.cfg.IOFault {
+			m = append(m, "hpubfail")
+		}
 		if h.pubN-h.preN+2 <= h.cfg.MaxMsgs {
 			m = append(m, "mpub", "hmpub")
 		}
@@ -350,6 +362,23 @@ func (h *hworld) Apply(ev string) {
 			h.bad("C01 C10 valid publish not acknowledged", "POST /pub answered %d %s", code, body)
 		} else {
 			h.ackPublish([]string{b}, 0, t0)
+		}
+	case "hpubfail":
+		b := h.nextBody()
+		armed := true
+		vos.Fault = func(e vos.Effect) error {
+			if armed && e.Op == "write" && strings.Contains(e.Path, "/"+hTopic+".diskqueue.") {
+				armed = false
+				return syscall.ENOSPC
+			}
+			return nil
+		}
+		code, _ := w.Do("POST", "/pub?topic="+hTopic, []byte(b))
+		vos.Fault = nil
+		if code == 200 {
+			h.ackPublish([]string{b}, 0, t0)
+		} else if armed {
+			h.bad("C10 C01 publish refused although nothing failed", "POST /pub answered %d and no disk write was attempted", code)
 		}
 	case "hmpub":
 		b1, b2 := h.nextBody(), h.nextBody()
